@@ -75,7 +75,7 @@ Do ==
     /\ kind # "" /\ kind' = ""
     /\
          \/ kind = "I" /\ \E sz \in Sizes, fmt \in Fmts :
-                LET img == [fmt |-> fmt, w |-> sz[1], h |-> sz[2], pix |-> GenPix(fmt, sz[1], sz[2])] IN
+                LET img == MkImage(fmt, sz[1], sz[2], GenPix(fmt, sz[1], sz[2])) IN
                 SetImage(img) /\ Log([k |-> "I", fmt |-> fmt, w |-> sz[1], h |-> sz[2], pix |-> img.pix])
          \/ kind \in KT /\ \E m \in AffineMats(image.w, image.h) \cup ProjMats(image.w, image.h) :
                 SetTransform(m) /\ Log([k |-> "T", m |-> m])
